@@ -1156,8 +1156,6 @@ def __lshift__(self, other, start_pos=None):
                     a_max = self.a_fiber.maxCoord()
                     if b_pos == 0 and a_max is not None and compressed_output:
                         inserting = b_coord < a_max
-                        # The staging position is only used by the write trace
-                        assert insert_pos is not None or not a_write_traced
 
                     # Read the B coordinate
                     if b_traced:
@@ -1242,6 +1240,9 @@ def __lshift__(self, other, start_pos=None):
                     # If we just inserted into a compressed fiber, save the
                     # relevant information
                     if inserting and new_a_payload:
+                        # The staging area starts at the fiber's shape
+                        assert insert_pos is not None
+
                         old_end = b_coord + 1
                         write_pos = insert_pos + len(to_insert)
                         to_insert.append(b_coord)
